@@ -43,4 +43,10 @@ CHECKS = {
         "assumptions": ["clock readings are non-decreasing and consecutive updates are at most 1e5 s apart (a gap of ~292 years overflows the duration conversion; outside any realistic history)", "MinInt64 offsets are exempt from the 'by exactly the offset' clause (negation saturates by design)"],
         "timeout_quick": 400, "timeout_thorough": 1800,
     },
+    "C12": {
+        "pkg": "c12", "race": True,
+        "rule": "rapid-generated Current/Get/advance/burst sequences on the real provider under virtual time (synctest), race detector on.",
+        "assumptions": ["virtual time of testing/synctest stands for the wall clock the provider reads", "goroutine interleavings inside a burst are those the Go scheduler produces"],
+        "timeout_quick": 400, "timeout_thorough": 1800,
+    },
 }
